@@ -26,6 +26,7 @@ type tcase struct {
 	op   *opDef
 	args []*big.Int // sent to the model
 	mode int        // aliasing / API variant, implementation only
+	extra []*big.Int // values produced by the implementation that the model judges (sampled values)
 }
 
 func (c *tcase) line() string {
@@ -146,7 +147,11 @@ func parseOk(s string) []*big.Int {
 		if h == "" {
 			continue
 		}
-		out = append(out, vh.UnZHex(h))
+		x, ok := new(big.Int).SetString(h, 16)
+		if !ok {
+			return nil // a consistency marker such as "ok:clone-differs", not a value list
+		}
+		out = append(out, x)
 	}
 	return out
 }
@@ -185,13 +190,13 @@ func evaluate(a vh.Args, res *vh.Result, cases []*tcase) {
 	lines := make([]string, len(cases))
 	outs := make([]outcome, len(cases))
 	for i, c := range cases {
-		lines[i] = c.line()
 		c := c
 		var r, m string
 		if p := vh.Safely(func() { r, m = c.op.impl(c) }); p != "" {
 			r = "panic"
 		}
 		outs[i] = outcome{c: c, impl: r, mutated: m}
+		lines[i] = c.line() // after the implementation ran: sampled values are part of the line
 	}
 	model, err := vh.Driver(a.Driver, lines)
 	if err != nil {
